@@ -267,40 +267,82 @@ def r3_counters(ctx, rep, R='C17.R3'):
                       key='child:' + kind, func=fi.qualname, where=ctx.where(fi, lp))
     # ... and the created elements are part of the tree that is serialised: testcase under the root
     # handed to tostring(), failure / error under the testcase element, attached where created
-    made, parent = {}, {}
-    for n in ast.walk(fi.node):
-        if isinstance(n, ast.Assign) and len(n.targets) == 1 and isinstance(n.targets[0], ast.Name):
-            for tag in ('testsuite', 'testcase', 'failure', 'error'):
-                if _creates(n.value, tag):
-                    made[tag] = (n.targets[0].id, n.value)
-                    if (dotted(n.value.func) or '').endswith('SubElement') and \
-                            isinstance(n.value.args[0], ast.Name):
-                        parent[tag] = (n.value.args[0].id, n.value)
-        if isinstance(n, ast.Expr) and isinstance(n.value, ast.Call):
-            for tag in ('testcase', 'failure', 'error'):        # bare SubElement(parent, tag)
-                if _creates(n.value, tag) and (dotted(n.value.func) or '').endswith('SubElement') and \
-                        isinstance(n.value.args[0], ast.Name):
-                    made.setdefault(tag, (None, n.value))
-                    parent[tag] = (n.value.args[0].id, n.value)
-    for c in own_calls(fi.node):
-        if isinstance(c.func, ast.Attribute) and c.func.attr == 'append' and len(c.args) == 1 and \
-                isinstance(c.args[0], ast.Name) and isinstance(c.func.value, ast.Name):
-            for tag, (v, mk_) in made.items():
-                if v == c.args[0].id:
-                    parent[tag] = (c.func.value.id, c)
+    # (a walk in statement order: which element a name denotes changes when a helper such as
+    # _add_node(parent, tag) was inlined several times with the same local)
+    elems, env = [], {}
+
+    def new_elem(call, tag):
+        el = {'tag': tag, 'call': call, 'parent': None, 'attach': None}
+        elems.append(el)
+        if (dotted(call.func) or '').endswith('SubElement') and isinstance(call.args[0], ast.Name):
+            el['parent'] = env.get(call.args[0].id)
+            el['attach'] = call
+        return el
+
+    def tag_of(call):
+        if not isinstance(call, ast.Call):
+            return None
+        nm = (dotted(call.func) or '').split('.')[-1]
+        i = {'Element': 0, 'SubElement': 1}.get(nm)
+        if i is not None and len(call.args) > i and isinstance(call.args[i], ast.Constant):
+            return call.args[i].value
+        return None
+
+    def walk_stmts(body):
+        for st in body:
+            if isinstance(st, ast.Assign) and len(st.targets) == 1 and isinstance(st.targets[0], ast.Name):
+                t = tag_of(st.value)
+                if t is not None:
+                    env[st.targets[0].id] = new_elem(st.value, t)
+                elif isinstance(st.value, ast.Name) and st.value.id in env:
+                    env[st.targets[0].id] = env[st.value.id]
+                else:
+                    env.pop(st.targets[0].id, None)
+            elif isinstance(st, ast.Expr) and isinstance(st.value, ast.Call):
+                c = st.value
+                t = tag_of(c)
+                if t is not None:
+                    new_elem(c, t)
+                elif isinstance(c.func, ast.Attribute) and c.func.attr == 'append' and len(c.args) == 1 \
+                        and isinstance(c.args[0], ast.Name) and isinstance(c.func.value, ast.Name) and \
+                        c.args[0].id in env and c.func.value.id in env:
+                    env[c.args[0].id]['parent'] = env[c.func.value.id]
+                    env[c.args[0].id]['attach'] = c
+            for fld in ('body', 'orelse', 'finalbody'):
+                sub = getattr(st, fld, None)
+                if isinstance(sub, list) and sub and isinstance(sub[0], ast.stmt):
+                    walk_stmts(sub)
+            for h in getattr(st, 'handlers', []) or []:
+                walk_stmts(h.body)
+    walk_stmts(fi.node.body)
+    made = {}
+    for el in elems:
+        made.setdefault(el['tag'], []).append(el)
     roots = [c.args[0].id for c in own_calls(fi.node)
              if (dotted(c.func) or '').endswith('tostring') and c.args and isinstance(c.args[0], ast.Name)]
-    okt = len(roots) == 1 and made.get('testsuite', (None,))[0] == roots[0]
+    root_el = None
+    okt = len(roots) == 1 and len(made.get('testsuite', [])) == 1
     why = 'the serialised root is %s' % roots
     if okt:
+        root_el = made['testsuite'][0]
+        tos = [c for c in own_calls(fi.node) if (dotted(c.func) or '').endswith('tostring')]
+        # the name handed to tostring() denotes the testsuite element
+        okt = any(isinstance(n, ast.Assign) and n.value is root_el['call'] and
+                  is_name(n.targets[0], roots[0]) for n in ast.walk(fi.node))
+        why = 'tostring() is not given the testsuite element'
+    if okt:
         for tag, up in (('testcase', 'testsuite'), ('failure', 'testcase'), ('error', 'testcase')):
-            if tag not in made or tag not in parent or parent[tag][0] != made[up][0]:
-                okt, why = False, '<%s> is not attached to the <%s> element' % (tag, up)
-                break
-            lits_c = [(norm(e), p_) for e, p_ in path_literals(made[tag][1], fi.node)]
-            lits_a = [(norm(e), p_) for e, p_ in path_literals(parent[tag][1], fi.node)]
-            if lits_c != lits_a:
-                okt, why = False, '<%s> is attached under another condition than it is created' % tag
+            for el in made.get(tag, []) or [None]:
+                if el is None or el['parent'] is None or el['parent']['tag'] != up or \
+                        (up == 'testsuite' and el['parent'] is not root_el):
+                    okt, why = False, '<%s> is not attached to the <%s> element' % (tag, up)
+                    break
+                lits_c = [(norm(e), p_) for e, p_ in path_literals(el['call'], fi.node)]
+                lits_a = [(norm(e), p_) for e, p_ in path_literals(el['attach'], fi.node)]
+                if lits_c != lits_a:
+                    okt, why = False, '<%s> is attached under another condition than it is created' % tag
+                    break
+            if not okt:
                 break
     rep.check(okt, R, 'testcase / failure / error elements are attached to the serialised tree',
               '%s: the counters would disagree with the elements of the report' % why,
